@@ -197,6 +197,7 @@ def install_hooks():
         _fired("SamplerCore.save_sampler_state")
         for m in inc.monitors:
             m.before_save(inc, self, path)
+        inc.rng.mark(f"save:{path}")
         inc.world.fs.open_window(f"save:{path}")
         err = None
         try:
